@@ -233,16 +233,14 @@ impl<'cmd> Parser<'cmd> {
                         ParseResult::FlagSubCommand(name) => {
                             // If there are more short flags to be processed, we should keep the state, and later
                             // revisit the current group of short flags skipping the subcommand.
-                            keep_state = self
-                                .flag_subcmd_at
-                                .map(|at| {
-                                    raw_args
-                                        .seek(&mut args_cursor, clap_lex::SeekFrom::Current(-1));
-                                    // Since we are now saving the current state, the number of flags to skip during state recovery should
-                                    // be the current index (`cur_idx`) minus ONE UNIT TO THE LEFT of the starting position.
-                                    self.flag_subcmd_skip = self.cur_idx.get() - at + 1;
-                                })
-                                .is_some();
+                            keep_state = self.flag_subcmd_at.is_some();
+                            if keep_state {
+                                // Since we are now saving the current state, `flag_subcmd_skip` holds the number of
+                                // flags to skip during state recovery (see `parse_short_arg`).
+                                raw_args.seek(&mut args_cursor, clap_lex::SeekFrom::Current(-1));
+                            } else {
+                                self.flag_subcmd_skip = 0;
+                            }
 
                             debug!(
                                 "Parser::get_matches_with:FlagSubCommandShort: subcmd_name={}, keep_state={}, flag_subcmd_skip={}",
@@ -926,7 +924,11 @@ impl<'cmd> Parser<'cmd> {
             Ok(()),
             "tracking of `flag_subcmd_skip` is off for `{short_arg:?}`"
         );
+        // Number of flags of this group that have been looked at, counted in flags (an option's
+        // implied value moves `cur_idx` as well, so indices cannot be used for this)
+        let mut consumed = skip;
         while let Some(c) = short_arg.next_flag() {
+            consumed += 1;
             let c = match c {
                 Ok(c) => c,
                 Err(rest) => {
@@ -1000,6 +1002,8 @@ impl<'cmd> Parser<'cmd> {
                 let done_short_args = short_arg.is_empty();
                 if done_short_args {
                     self.flag_subcmd_at = None;
+                } else {
+                    self.flag_subcmd_skip = consumed;
                 }
                 Ok(ParseResult::FlagSubCommand(name))
             } else {
